@@ -27,6 +27,11 @@ def degree(t, is_datum):
         return degree(t[2], is_datum)
     if k == 'bin':
         a, b = degree(t[2], is_datum), degree(t[3], is_datum)
+        if t[1] in ('Add', 'Sub') and (a is None) != (b is None):
+            # a free scalar (parameter / captured variable) added to a quantity of known degree must have that degree
+            unk = t[2] if a is None else t[3]
+            if tag(unk) in ('arg', 'upvar', 'local'):
+                return b if a is None else a
         if a is None or b is None:
             return None
         if t[1] in ('Add', 'Sub'):
@@ -163,7 +168,7 @@ def is_element_read(t):
     return False
 
 
-def check_scale_guards(prog, rep, rule, fnkeys, floor_each=1):
+def check_scale_guards(prog, rep, rule, fnkeys, floor_each=1, values=False, missing_ok=False, why=None):
     """every branch on a floating-point comparison in the listed factorisation bodies must be scale consistent: comparing
     data with the constant 0, or two quantities of the same degree in the data.  (P.A = L.U and L.L^T = A are claimed for every
     matrix, hence also for c*A: a threshold that is not homogeneous makes the factorisation of c*A differ structurally.)"""
@@ -171,13 +176,22 @@ def check_scale_guards(prog, rep, rule, fnkeys, floor_each=1):
     for k in fnkeys:
         f = prog.func(k)
         if f is None:
-            rep.viol(rule, '%s:%s' % (rule, k), 'function disappeared')
+            if not missing_ok:
+                rep.viol(rule, '%s:%s' % (rule, k), 'function disappeared')
             continue
         rep.touch(k)
         seen = set()
         n = 0
-        for bb, gl in sorted(f.guards().items()):
-            for cond, val in gl:
+        conds_all = [(cond, val) for bb, gl in sorted(f.guards().items()) for cond, val in gl]
+        if values:
+            # comparisons used as values (closure results fed to all()/any()/filter, stored flags)
+            pool = [s_.value for s_ in f.stores()] + list(f.return_values()) + [a for c in f.calls() for a in c.args]
+            for t in pool:
+                for z in subterms(t):
+                    if tag(z) == 'bin' and z[1] in ('Lt', 'Le', 'Gt', 'Ge', 'Eq', 'Ne') and len(z) > 4 and z[4] in ('f64', 'f32'):
+                        conds_all.append((z, True))
+        if True:
+            for cond, val in conds_all:
                 if tag(cond) != 'bin' or cond[4] not in ('f64', 'f32') or cond[1] not in ('Lt', 'Le', 'Gt', 'Ge', 'Eq', 'Ne') or cond in seen:
                     continue
                 seen.add(cond)
@@ -193,8 +207,8 @@ def check_scale_guards(prog, rep, rule, fnkeys, floor_each=1):
                 elif da == db:
                     rep.ok(rule, key, 'both sides have degree %g in the data: %s' % (da, show(cond)[:80]))
                 else:
-                    rep.viol(rule, key, 'threshold test is not scale consistent: %s has degree %g, %s has degree %g; the factorisation of c*A then '
-                             'differs structurally from that of A (e.g. a pivot of 1e-17 is treated as zero and its column is left undivided)' % (
-                                 show(a)[:70], da, show(b)[:40], db), site_of(f.body))
+                    rep.viol(rule, key, 'threshold test is not scale consistent: %s has degree %g in the data, %s has degree %g; %s' % (
+                                 show(a)[:70], da, show(b)[:40], db, why or 'the factorisation of c*A then differs structurally from that of A '
+                                 '(e.g. a pivot of 1e-17 is treated as zero and its column is left undivided)'), site_of(f.body))
         total += n
     return total
